@@ -200,14 +200,12 @@ example : toDigits 10 [90210] = [9, 0, 2, 1, 0] ∧ toDigitsOk 10 [90210] = true
 
 /-
 -- NOT PROVED
-* `toDigitsOk 10 a = true` for `a.length > 5000`.  The proof of `toDigitsOk_ten` keeps the
-  invariant `val num < 10^(num_digits + 48)`; the budget `⌊len·64·59/196⌋` falls behind the true
-  digit count by 0.0006 digits per word (`59/196 < log10 2`), and the crude estimates used
-  (`2^93 < 10^28`, `10 < 16`) stop at 5000 words.  With sharper constants the statement should be
-  provable up to ≈ 10^5 words, but NOT beyond: a length-level simulation of the control flow with
-  Python big integers (`/tmp/wpG/sim.py`) predicts `num_digits - k` to underflow for the all-ones
-  number of 160 000 words (10.2 Mbit; still fine at 150 000).  Not confirmed on the Rust code
-  (its bit-serial division would need ~10^12 word operations there).
+* `toDigitsOk 10 a = true` for `a.length > 5000`: see `Arp/Props/C09Wide.lean`, which proves it
+  up to 104 335 words (slack 65 instead of 48, `2^13301 < 10^4004` instead of `2^93 < 10^28`) and
+  REFUTES it for the all-ones numbers of 117 676 and of 160 000 words (`toDigits_ten_fails_*`, the
+  failure predicted by the length-level simulation) and for `234·10^2266014` (117 618 words,
+  `C13.limbs_toDigits_fails_117618`).  Between 104 336 and 117 617 words nothing is proved; a
+  sampled simulation finds no failure there.  Not confirmed on the Rust code (its bit-serial division would need ~10^12 word operations there).
 * `toDigitsOk base a` for other bases and `a.length > 5`: false in general, see
   `toDigits_base2_fails`.
 * The length bounds `a.length < 2^62` (`mulSlice_val`), `< 2^61` (`mul_val`, `mulKaratsuba_val`),
